@@ -873,7 +873,7 @@ def tree_prop_deps():
 def family_jobs(thorough):
     """worker job groups (one interpreter each)"""
     def J(fam, n, v, **kw):
-        d = {"family": fam, "n": n, "version": v, "timeout": 25, "deep_timeout": 45}
+        d = {"family": fam, "n": n, "version": v, "timeout": 60, "deep_timeout": 60}
         d.update(kw)
         return d
     sizes = [50, 100, 200, 400, 600, 1000]
@@ -886,20 +886,20 @@ def family_jobs(thorough):
     g.append([J("nest_seq", n, 6) for n in (50, 200, 500)] + [J("nary_add", n, 6) for n in (50, 500, 1000)] + [J("nary_concat", n, 6) for n in (50, 500)])
     g.append([J("seq_if", n, v) for n in (10, 50, 100, 150, 300) for v in (6, 9)])
     g.append([J("seq_ifelse", n, v) for n in (10, 50, 100, 200) for v in (6, 9)] + [J("seq_while", n, v) for n in (10, 50, 150) for v in (6, 9)])
-    g.append([J("diamonds", n, v, timeout=20) for n in (4, 8, 12, 16, 40, 80) for v in (8, 9, 10)] + [J("half_diamonds", n, 9, timeout=20) for n in (8, 16, 40, 80)])
-    g.append([J("nested_if", n, 6, timeout=6, deep=False) for n in (4, 8, 12, 16, 30, 50)])
+    g.append([J("diamonds", n, v) for n in (4, 8, 12, 16, 40, 80) for v in (8, 9, 10)] + [J("half_diamonds", n, 9) for n in (8, 16, 40, 80)])
+    g.append([J("nested_if", n, 6) for n in (4, 8, 12, 16, 30, 50, 150)])
     g.append([J("nested_ifelse", n, v) for n in (5, 20, 50, 150) for v in (6, 9)] + [J("nested_while", n, v) for n in (5, 20, 50, 150) for v in (6, 9)])
     g.append([J("cond_arms", n, 6) for n in (1, 2, 50, 200, 400)])
     g.append([J("many_vars", n, v) for n in (1, 2, 16, 64, 128, 200, 255, 256, 257, 300) for v in (6, 9)])
     g.append([J("many_vars_sum", n, v) for n in (1, 64, 255, 256, 257, 300) for v in (6, 9)])
     g.append([J("many_stores", n, v) for n in (1, 128, 255, 256, 257, 300) for v in (6, 9)])
     g.append([J("many_subs", n, v) for n in (1, 10, 50, 200) for v in (4, 8)] + [J("sub_many_args", n, v) for n in (0, 1, 8, 20, 60) for v in (6, 8)])
-    g.append([J("sub_chain", n, v) for n in (1, 10, 50, 100) for v in (6, 8)] + [J("sub_recursive", n, v) for n in (0, 1, 10, 60) for v in (4, 8)])
+    g.append([J("sub_chain", n, v) for n in (1, 10, 50) for v in (6, 8)] + [J("sub_recursive", n, v) for n in (0, 1, 10, 60) for v in (4, 8)])
     g.append([J("sub_odd_names", n, v) for n in range(17) for v in (6, 8)])
     g.append([J("maybe_values", n, 6) for n in (1, 20, 100)] + [J("router_methods", n, v) for n in (0, 1, 5, 20) for v in (6, 8)])
     if thorough:
         g.append([J("long_pop", n, v) for n in (300, 450, 800, 2000, 5000) for v in (2, 4, 8, 10)])
-        g.append([J("sub_chain", n, 8, timeout=120) for n in (200, 300)] + [J("many_subs", n, 8, timeout=120) for n in (400, 800)])
+        g.append([J("sub_chain", n, 8, timeout=300) for n in (100, 200)] + [J("many_subs", n, 8, timeout=120) for n in (400, 800)])
         g.append([J("nest_add", n, 6) for n in (2000, 5000)] + [J("seq_if", n, 6) for n in (600, 1000)])
     return g
 
